@@ -404,9 +404,12 @@ func main() {
 	}
 	if os.Getenv("VERIF_SHARD") == "" && os.Getenv("VERIF_REPLAY") == "" {
 		r.Set("sequential_family_calls", sequentialFamily(r))
+		st, tr := sequentialAPI(r)
+		r.Set("sequential_api_states", st)
+		r.Set("sequential_api_transitions", tr)
 	}
 	schk.Main(r, scs, ev.Pick(r, 50*time.Second, 1500*time.Second), func(r *ev.Run) {
-		r.Set("rule", "controlled scheduler over the instrumented chans package (RWMutex with writer preference, WaitGroup, spawned sender goroutines, channels, select and timers are model objects): one publisher using each of the 6 publish variants (1 event, 2 for the Slice variants), 0-2 (3) subscribers with buffers {0,1} created through Sub/DefaultBuffer and SubBuf, timeout off / on with a recording OnPubTimeout, one receiver per subscription that keeps receiving until its channel is closed, and optionally a manager thread doing one of Unsub(sub0), UnsubAll, Sub, Unsub(unknown), Unsub(nil), WithOnly(sub0).PubSync, or a second publisher; executions run to quiescence (only receivers may remain blocked). Ledger oracle: per (event, subscriber) at most one delivery; every subscriber that stayed subscribed gets each event or, only with a timeout, one OnPubTimeout stands in for it; deliveries + timeouts never exceed the subscribers (and equal them without a manager); Sync variants in publication order; Wait/Sync return only after every hand-off or timeout callback is done; Unsub/UnsubAll close exactly the removed channels and return the documented errors; WithOnly reaches only the given subscription; no panic")
+		r.Set("rule", "controlled scheduler over the instrumented chans package (RWMutex with writer preference, WaitGroup, spawned sender goroutines, channels, select and timers are model objects): one publisher using each of the 6 publish variants (1 event, 2 for the Slice variants), 0-2 (3) subscribers with buffers {0,1} created through Sub/DefaultBuffer and SubBuf, timeout off / on with a recording OnPubTimeout, one receiver per subscription that keeps receiving until its channel is closed, and optionally a manager thread doing one of Unsub(sub0), UnsubAll, Sub, Unsub(unknown), Unsub(nil), WithOnly(sub0).PubSync, or a second publisher; executions run to quiescence (only receivers may remain blocked). In addition (one goroutine, no scheduler) an explicit-state search to fixpoint over the sequential API: SubBuf/Sub, Unsub of every handle incl. already removed ones, nil and foreign channels, UnsubAll, the four synchronous publish variants, WithOnly(handle) publishers made on the spot and one retained across later calls, up to 3 (4) subscription handles, every channel drained and compared with a subscription model after every call. Ledger oracle: per (event, subscriber) at most one delivery; every subscriber that stayed subscribed gets each event or, only with a timeout, one OnPubTimeout stands in for it; deliveries + timeouts never exceed the subscribers (and equal them without a manager); Sync variants in publication order; Wait/Sync return only after every hand-off or timeout callback is done; Unsub/UnsubAll close exactly the removed channels and return the documented errors; WithOnly reaches only the given subscription; no panic")
 		r.Assume("timers are untimed (may fire at any point after creation); 'eventually' for Pub/PubSlice means at quiescence of the closed driver")
 	})
 }
